@@ -37,9 +37,28 @@ ASSUMPTIONS = [
 def strategy(tier):
     @st.composite
     def _s(draw):
-        spec = draw(S.nlp_spec(max_n=4 if tier == "quick" else 6, max_m=3))
+        spec = draw(S.nlp_spec(max_n=4 if tier == "quick" else 6, max_m=3, min_m=draw(st.sampled_from([0, 1, 2]))))
         n, m = spec["n"], spec["m"]
+        # sparse derivatives with exactly-zero entries next to curved ones: "exactly the wrong row"
+        # is only a strong statement when the other rows of the column are (near) zero
+        if draw(st.booleans()):
+            Q = np.array(spec["Q"], dtype=float)
+            mask = np.array(draw(st.lists(st.booleans(), min_size=n * n, max_size=n * n))).reshape(n, n)
+            mask = np.triu(mask, 1)
+            Q[(mask | mask.T)] = 0.0
+            spec["Q"] = Q.tolist()
+            if m:
+                A = np.array(spec["A"], dtype=float).reshape(m, n)
+                am = np.array(draw(st.lists(st.booleans(), min_size=m * n, max_size=m * n))).reshape(m, n)
+                A[am] = 0.0
+                spec["A"] = A.tolist()
+                # stronger constraint curvature (|second derivatives| up to 4)
+                spec["Hc"] = [S.sym_from_lower(S.dmat(draw, n, n, -32, 32, 8.0)) for _ in range(m)]
+                bshift = S.Ref(spec).c(np.array(spec.get("xf", [0.0] * n)))
+                spec["b"] = [float(b0 + t) for b0, t in zip(spec["b"], bshift)]
         x0 = S.dvec(draw, n, -16, 16, 8.0)
+        zero = draw(st.lists(st.booleans(), min_size=n, max_size=n))
+        x0 = [0.0 if z else v for z, v in zip(zero, x0)]
         x0 = np.clip(x0, spec["lb"], spec["ub"]).tolist()
         if max(abs(v) for v in x0) > 2.0:
             x0 = np.clip(x0, -2.0, 2.0).tolist()
